@@ -5,6 +5,9 @@ package verifharness
 import (
 	"strings"
 	"testing"
+
+	"github.com/protolambda/ztyp/codec"
+	"github.com/protolambda/ztyp/view"
 )
 
 func c09Obs(t *Ty, v *Val, prev *Val) string {
@@ -47,9 +50,121 @@ func c09Obs(t *Ty, v *Val, prev *Val) string {
 	return joinKV("enc="+enc, "blen="+blen, "dec="+dec)
 }
 
+type lenOnly uint64
+
+func (l lenOnly) ByteLength() uint64 { return uint64(l) }
+
+// basicEncDec: Encode() of the library's basic values and Decode() back (also with a byte
+// missing / a byte too many)
+func basicEncDec(t *Ty, v *Val) string {
+	var enc []byte
+	var dec func(x []byte) (string, error)
+	switch {
+	case t.Kind == "bool":
+		b := view.BoolView(v.B)
+		enc, _ = b.Encode()
+		dec = func(x []byte) (string, error) {
+			var d view.BoolView
+			err := d.Decode(x)
+			return "(b_" + b01(bool(d)) + ")", err
+		}
+	case t.N == 1:
+		b := view.Uint8View(v.U.Uint64())
+		enc, _ = b.Encode()
+		dec = func(x []byte) (string, error) {
+			var d view.Uint8View
+			err := d.Decode(x)
+			return "(n_" + hx(uint64(d)) + ")", err
+		}
+	case t.N == 2:
+		b := view.Uint16View(v.U.Uint64())
+		enc, _ = b.Encode()
+		dec = func(x []byte) (string, error) {
+			var d view.Uint16View
+			err := d.Decode(x)
+			return "(n_" + hx(uint64(d)) + ")", err
+		}
+	case t.N == 4:
+		b := view.Uint32View(v.U.Uint64())
+		enc, _ = b.Encode()
+		dec = func(x []byte) (string, error) {
+			var d view.Uint32View
+			err := d.Decode(x)
+			return "(n_" + hx(uint64(d)) + ")", err
+		}
+	case t.N == 8:
+		b := view.Uint64View(v.U.Uint64())
+		enc, _ = b.Encode()
+		dec = func(x []byte) (string, error) {
+			var d view.Uint64View
+			err := d.Decode(x)
+			return "(n_" + hx(uint64(d)) + ")", err
+		}
+	default:
+		b := u256FromBig(v.U)
+		enc, _ = b.Encode()
+		dec = func(x []byte) (string, error) {
+			var d view.Uint256View
+			err := d.Decode(x)
+			s, _ := readBasic(nil, d)
+			return strings.ReplaceAll(s, " ", "_"), err
+		}
+	}
+	r := func(x []byte) string {
+		s, err := dec(x)
+		if err != nil {
+			return "ERR"
+		}
+		return s
+	}
+	short := "ERR"
+	if len(enc) > 0 {
+		short = r(enc[1:])
+	}
+	return joinKV("enc="+hexBytes(enc), "dec="+r(enc), "short="+short, "long="+r(append(append([]byte{}, enc...), 0)))
+}
+
 func TestC09(t *testing.T) {
 	out := openOut(t, "C09")
 	defer out.close()
+	{
+		g := &gen{r: newRng(90)}
+		for k := 0; k < 400; k++ {
+			ty := g.leafTy()
+			if ty.Kind != "u" && ty.Kind != "bool" {
+				continue
+			}
+			v := g.val(ty)
+			out.emit("encdec", "encdec", []string{ty.Sexp(), v.Sexp()}, guard(func() string { return basicEncDec(ty, v) }))
+		}
+		// Decode of arbitrary bytes (bool bytes 0..255, wrong lengths)
+		for b := 0; b < 256; b++ {
+			x := []byte{byte(b)}
+			out.emit("decraw", "decraw", []string{"bool", hexBytes(x)}, guard(func() string {
+				var d view.BoolView
+				if err := d.Decode(x); err != nil {
+					return "ERR"
+				}
+				return "OK (b_" + b01(bool(d)) + ")"
+			}))
+		}
+		// codec.Sum
+		for k := 0; k < 200; k++ {
+			n := g.r.Intn(6)
+			vals := make([]codec.ByteLength, n)
+			parts := make([]string, n)
+			for i := range vals {
+				x := g.r.Uint64() >> uint(g.r.Intn(64))
+				vals[i] = lenOnly(x)
+				parts[i] = hx(x)
+			}
+			arg := "-"
+			if n > 0 {
+				arg = strings.Join(parts, ",")
+			}
+			out.emit("sum", "csum", []string{arg}, hx(codec.Sum(vals...)))
+		}
+	}
 	n := 700
 	if thorough() {
 		n = 20000
